@@ -1,7 +1,7 @@
 (* C13 - Word counting, enumeration, lengths and random sampling match the language.
    Only statements, each closed by short glue, with Print Assumptions beneath. *)
 From Coq Require Import List Arith NArith Bool Sorted.
-From AV Require Import Base.Util Spec.Lang Spec.FA Spec.Words Model.Count Proofs.Count.
+From AV Require Import Base.Util Spec.Lang Spec.FA Spec.Words Model.Count Proofs.Pump Proofs.Count Proofs.Uniform.
 Import ListNotations.
 
 (* count_words_of_length(k) is the number of accepted words of length k *)
@@ -93,21 +93,28 @@ Print Assumptions C13_cardinality_exact.
 (* iteration (after the repair): the first n items are the first n words of the (length,
    lexicographic) listing; either n words are produced or the whole language is (so every
    accepted word eventually appears, once, and nothing else does); an empty language produces
-   nothing.  FULL statement: *)
-Definition C13_iter_order_complete_statement : Prop := forall m n, valid_dfa m = true ->
+   nothing.  For an infinite language the model searches n*(|Q|+1) levels from the minimum length;
+   that is enough because every window of |Q| consecutive lengths holds an accepted word
+   (C13_infinite_window, pumping down), so the model never answers "out of fuel". *)
+Theorem C13_iter_order_complete : forall m n, valid_dfa m = true ->
   exists ws L, iter_upto m n = Ok ws /\ ws = firstn n (words_below m L) /\
                (length ws = n \/ (forall w, dfa_acc m w = true -> In w ws)).
-(* PROVED: the same, except that for an INFINITE language the model may answer "out of fuel"
-   (its level budget n*(|Q|+1) is not proved sufficient; the harness treats that answer as a
-   disagreement).  Finite and empty languages: full statement. *)
-Theorem C13_iter_order_complete_partial : forall m n, valid_dfa m = true ->
-  match iter_upto m n with
-  | Ok ws => exists L, ws = firstn n (words_below m L) /\
-                       (length ws = n \/ (forall w, dfa_acc m w = true -> In w ws))
-  | Err e => e = Fuel /\ (forall k, exists w, dfa_acc m w = true /\ k < length w)
-  end.
 Proof. intros m n Hv. exact (iter_upto_spec m Hv n). Qed.
-Print Assumptions C13_iter_order_complete_partial.
+Print Assumptions C13_iter_order_complete.
+
+(* the fact behind the level budget: an accepted word at least as long as the number of states can
+   be shortened by 1..|Q| symbols, hence an infinite language has an accepted word in every window
+   of |Q| consecutive lengths, and at least n words shorter than lo + n*(|Q|+1) *)
+Theorem C13_infinite_window : forall m, valid_dfa m = true ->
+  (forall n, exists w, dfa_acc m w = true /\ n < length w) ->
+  (forall L, exists w, dfa_acc m w = true /\ L <= length w < L + length (d_states m)) /\
+  (forall lo n, n <= length (words_below m (lo + n * S (length (d_states m))))).
+Proof.
+  intros m Hv Hinf. split.
+  - exact (Pump.window_word m Hv Hinf).
+  - intros lo n. exact (words_below_grow m Hv lo n Hinf).
+Qed.
+Print Assumptions C13_infinite_window.
 
 Theorem C13_iter_empty_language : forall m n, valid_dfa m = true ->
   (forall w, dfa_acc m w = false) -> iter_upto m n = Ok [].
@@ -117,39 +124,47 @@ Proof.
 Qed.
 Print Assumptions C13_iter_empty_language.
 
-(* random_word is uniform.  FULL statement: for every accepted word w of length k, among the draw
-   vectors of the box B(w) = product of the ranges [0, total_i) the code draws from along w's run,
-   the vectors that make random_word return w form a duplicate-free list vs with
-   |vs| * (number of accepted words of length k) = |B(w)|, i.e. w has probability 1/count. *)
-Definition C13_random_word_uniform_statement : Prop := forall m k w, valid_dfa m = true ->
+(* random_word is uniform.  For every accepted word w of length k, consider the box B(w) = product
+   of the ranges [0, total_i) the code draws from along w's run (path_bounds; total_i = cnt of the
+   remaining length at the i-th state).  The draw vectors of B(w) that make random_word return w
+   form a duplicate-free list vs with exactly path_num = prod_i cnt (remaining_i - 1) next_i elements
+   (the product of the sizes of the selecting intervals), and |vs| * cnt k q0 = |B(w)| <> 0: the
+   probability mass of w is |vs| / |B(w)| = 1 / (number of accepted words of length k). *)
+Theorem C13_random_word_uniform : forall m k w, valid_dfa m = true ->
   length w = k -> dfa_acc m w = true ->
   exists vs, NoDup vs /\
     (forall ds, In ds vs <-> Forall2 N.lt ds (path_bounds m k (d_init m) w) /\ random_word m k ds = Ok w) /\
+    N.of_nat (length vs) = path_num m k (d_init m) w /\
     (N.of_nat (length vs) * cnt m k (d_init m) = Nprod (path_bounds m k (d_init m) w))%N /\
     Nprod (path_bounds m k (d_init m) w) <> 0%N.
-(* PROVED (the two ingredients; the counting of whole vectors, a product over the steps, is not
-   formalised):
-   per step - with the draw c ranging over [0, cnt (r+1) q), the row entry (a, t) is selected
-     exactly for the c of an interval of cnt r t values inside that range (entries in the row's
-     stored order), so symbol a is chosen for cnt r (delta q a) of the cnt (r+1) q draws;
-   telescoping - along the run of an accepted w of length k the product of those interval sizes
-     (path_num), times cnt k q0, equals the product of the range sizes (path_den = |B(w)|, non-zero):
-     every accepted word has the same weight 1 / cnt k q0. *)
-Theorem C13_random_word_uniform_partial : forall m, valid_dfa m = true ->
-  (forall r q a t, In (a, t) (row_of m q) ->
-     exists off, (off + cnt m r t <= cnt m (S r) q)%N /\
-       forall c, pick m r (row_of m q) c = Some (a, t) <-> (off <= c < off + cnt m r t)%N) /\
-  (forall k w, length w = k -> dfa_acc m w = true ->
-     (path_num m k (d_init m) w * cnt m k (d_init m) = path_den m k (d_init m) w)%N /\
-     path_den m k (d_init m) w = Nprod (path_bounds m k (d_init m) w) /\
-     path_den m k (d_init m) w <> 0%N).
+Proof. intros m k w Hv Hl Ha. exact (random_word_uniform m Hv k w Hl Ha). Qed.
+Print Assumptions C13_random_word_uniform.
+
+(* ... the same for every accepted word: any two accepted words of length k have equal mass
+   (|vs1| / |B(w1)| = |vs2| / |B(w2)|, cross-multiplied) *)
+Theorem C13_random_word_equal_mass : forall m k w1 w2, valid_dfa m = true ->
+  length w1 = k -> dfa_acc m w1 = true -> length w2 = k -> dfa_acc m w2 = true ->
+  (path_num m k (d_init m) w1 * Nprod (path_bounds m k (d_init m) w2) =
+   path_num m k (d_init m) w2 * Nprod (path_bounds m k (d_init m) w1))%N.
 Proof.
-  intros m Hv. split.
-  - intros r q a t Hin. exact (pick_interval m r (row_of m q) (row_keys_NoDup m Hv q) a t Hin).
-  - intros k w Hl Ha. destruct (path_telescope m Hv k (d_init m) w Hl Ha) as [H1 H2].
-    split; [exact H1|]. split; [exact (path_den_bounds m k (d_init m) w Hl Ha)|exact H2].
+  intros m k w1 w2 Hv Hl1 Ha1 Hl2 Ha2.
+  destruct (random_word_uniform m Hv k w1 Hl1 Ha1) as [vs1 [_ [_ [E1 [T1 _]]]]].
+  destruct (random_word_uniform m Hv k w2 Hl2 Ha2) as [vs2 [_ [_ [E2 [T2 _]]]]].
+  rewrite <- T1, <- T2, E1, E2.
+  generalize (path_num m k (d_init m) w1) (path_num m k (d_init m) w2) (cnt m k (d_init m)).
+  intros x y z. rewrite !N.mul_assoc, (N.mul_comm x y). reflexivity.
 Qed.
-Print Assumptions C13_random_word_uniform_partial.
+Print Assumptions C13_random_word_equal_mass.
+
+(* the per-step fact underneath: with the draw c ranging over [0, cnt (r+1) q), the row entry (a, t)
+   is selected exactly for the c of an interval of cnt r t values inside that range (entries in the
+   row's stored order), so symbol a is chosen for cnt r (delta q a) of the cnt (r+1) q draws *)
+Theorem C13_random_word_step_interval : forall m r q a t, valid_dfa m = true ->
+  In (a, t) (row_of m q) ->
+  exists off, (off + cnt m r t <= cnt m (S r) q)%N /\
+    forall c, pick m r (row_of m q) c = Some (a, t) <-> (off <= c < off + cnt m r t)%N.
+Proof. intros m r q a t Hv Hin. exact (pick_interval m r (row_of m q) (row_keys_NoDup m Hv q) a t Hin). Qed.
+Print Assumptions C13_random_word_step_interval.
 
 (* non-vacuity: a partial DFA over {0,1} with rows stored out of order *)
 Example C13_example :
